@@ -7,9 +7,49 @@
   thresholds, any rationals.
 -/
 import ScoresVerif.Lemmas.Roc
+import ScoresVerif.Gen.Roc
 
 namespace SV.Props.C14
 open SV SV.Model.Roc SV.Spec.Roc SV.Lemmas.Roc
+
+/-! ## 0. tie T: the definitions regenerated from binary_impl.py / roc_impl.py on every run ARE the model
+    (a changed map, mask, quotient, a dropped weighting / summation, another discretisation relation or another AUC
+    expression makes one of these fail to check) -/
+
+theorem gen_hits_eq_model (d o : Fl) : Gen.Roc.pod_hits d o = hit d o := by
+  cases d <;> cases o <;> simp [Gen.Roc.pod_hits, hit, bothValid, Fl.notNan, Bool.and_comm]
+theorem gen_misses_eq_model (d o : Fl) : Gen.Roc.pod_misses d o = miss d o := by
+  cases d <;> cases o <;> simp [Gen.Roc.pod_misses, miss, bothValid, Fl.notNan, Bool.and_comm]
+theorem gen_false_alarms_eq_model (d o : Fl) : Gen.Roc.pofd_false_alarms d o = falseAlarm d o := by
+  cases d <;> cases o <;> simp [Gen.Roc.pofd_false_alarms, falseAlarm, bothValid, Fl.notNan, Bool.and_comm]
+theorem gen_correct_negatives_eq_model (d o : Fl) : Gen.Roc.pofd_correct_negatives d o = correctNeg d o := by
+  cases d <;> cases o <;> simp [Gen.Roc.pofd_correct_negatives, correctNeg, bothValid, Fl.notNan, Bool.and_comm]
+
+/-- `pod = hits / (hits + misses)`, `pofd = false_alarms / (false_alarms + correct_negatives)` -/
+theorem gen_pod_ratio (ps : List Triple) (t : Fl) :
+    Model.Roc.pod ps t = Gen.Roc.pod_ratio (wsum miss ps t) (wsum hit ps t) := rfl
+theorem gen_pofd_ratio (ps : List Triple) (t : Fl) :
+    Model.Roc.pofd ps t = Gen.Roc.pofd_ratio (wsum falseAlarm ps t) (wsum correctNeg ps t) := rfl
+
+/-- both arrays of each quotient are weighted and then summed over the reduced dimensions -/
+theorem gen_frame_weights_then_sum :
+    ("misses = apply_weights(misses, weights=weights)" ∈ Gen.Roc.pod_frame ∧
+     "hits = apply_weights(hits, weights=weights)" ∈ Gen.Roc.pod_frame ∧
+     "misses = misses.sum(dim=dims_to_sum)" ∈ Gen.Roc.pod_frame ∧
+     "hits = hits.sum(dim=dims_to_sum)" ∈ Gen.Roc.pod_frame) ∧
+    ("false_alarms = apply_weights(false_alarms, weights=weights)" ∈ Gen.Roc.pofd_frame ∧
+     "correct_negatives = apply_weights(correct_negatives, weights=weights)" ∈ Gen.Roc.pofd_frame ∧
+     "false_alarms = false_alarms.sum(dim=dims_to_sum)" ∈ Gen.Roc.pofd_frame ∧
+     "correct_negatives = correct_negatives.sum(dim=dims_to_sum)" ∈ Gen.Roc.pofd_frame) := by
+  decide
+
+/-- `roc_curve_data` discretises `fcst` at `thresholds` with `operator.ge`, hands the result with `obs` and `weights` to
+    POD and POFD, and returns `-1 * trapezoid(pod, pofd)` -/
+theorem gen_roc_callsite :
+    Gen.Roc.roc_mode = "operator.ge" ∧ Gen.Roc.roc_discretises_fcst_at_thresholds = true ∧
+    Gen.Roc.roc_pod_wired = true ∧ Gen.Roc.roc_pofd_wired = true ∧
+    Gen.Roc.roc_auc = "-1 * apply_ufunc(np.trapezoid, pod, pofd)" := by
+  decide
 
 /-! ## 1. each ROC point is (POFD, POD) of the binary forecast `probability ≥ t` -/
 
